@@ -64,7 +64,7 @@ example :
     let pb := mkPod "job-b-0" "b" .running none
     let j : Job := { anyJob with admissionError := true }
     let s : Sys := { clock := sec 60, d := { hash := "d" }, pods := [pb], podCache := [pb] }
-    (newCalls s (handleKillJob s ⟨"job", "u", j, true, 1⟩ j ((podTask pb).toList)).1).map brief = [("delete", "pods", "job-b-0", "ok", false)] := by
+    (newCalls s (handleKillJob s ⟨"job", "u", j, true, 1⟩ j ((podTask s.clock pb).toList)).1).map brief = [("delete", "pods", "job-b-0", "ok", false)] := by
   decide
 
 /-- what "decided against continuing" means, exactly -/
@@ -147,7 +147,7 @@ theorem decided_then_kill_covers_unrecorded (s : Sys) (jo : JobObj) (rjOut : Job
       jo.job.admissionError = true →
       ∀ p ∈ s.podCache, p.jobLabel = some jo.uid → p.ownerUid = some jo.uid →
         (∀ r ∈ jo.job.status.tasks, r.name ≠ p.pod.name) →
-        ∀ t, podTask p = some t → isTaskFinished t = false → t.deletionTimestamp = none →
+        ∀ t, podTask s.clock p = some t → isTaskFinished t = false → t.deletionTimestamp = none →
           ∃ c ∈ newCalls s (syncJobTasks s jo jo.job).1,
             c.verb = "delete" ∧ c.res = "pods" ∧ c.force = false ∧ c.name = p.pod.name) := by
   have hcr : syncCreateTasks s jo jo.job (tasks0 s jo jo.job) =
